@@ -1,6 +1,7 @@
 package statedb
 
 import (
+	"bytes"
 	"fmt"
 	"math/big"
 	"sort"
@@ -436,6 +437,36 @@ func (s *StateDB) RevertToSnapshot(revid int) {
 	// Replay the journal to undo changes and remove invalidated snapshots
 	s.journal.Revert(s, snapshot)
 	s.validRevisions = s.validRevisions[:idx]
+}
+
+// RefreshBalances re-reads the balance of every account cached in the StateDB
+// from the keeper. A precompile that changes bank balances through the Cosmos
+// keepers (rewards paid out by a staking hook, a withdraw address that is not
+// the caller, a delegation made for another account) leaves the cached state
+// objects stale, and the final Commit would overwrite the bank balances with
+// them. It must be called right after such a change, given that a Commit made
+// both sides agree right before it.
+func (s *StateDB) RefreshBalances() {
+	addrs := make([]common.Address, 0, len(s.stateObjects))
+	for addr := range s.stateObjects {
+		addrs = append(addrs, addr)
+	}
+	sort.Slice(addrs, func(i, j int) bool {
+		return bytes.Compare(addrs[i].Bytes(), addrs[j].Bytes()) < 0
+	})
+	// the reads are bookkeeping, not part of the metered execution
+	ctx := s.ctx.WithGasMeter(sdk.NewInfiniteGasMeter())
+	for _, addr := range addrs {
+		obj := s.stateObjects[addr]
+		if obj.suicided {
+			continue
+		}
+		account := s.keeper.GetAccount(ctx, addr)
+		if account == nil || account.Balance == nil || account.Balance.Cmp(obj.Balance()) == 0 {
+			continue
+		}
+		obj.SetBalance(new(big.Int).Set(account.Balance))
+	}
 }
 
 // Commit writes the dirty states to keeper
